@@ -30,10 +30,19 @@ type rtCase struct {
 	SplitAt    int // a split happens inside the SplitAt-th handler invocation (0: never)
 	SplitKey   string
 	Merge      bool // mocktikv: merge the region of SplitKey with its right neighbour instead
+	// caller-side cancellation: the context given to RunOnRange is cancelled at the CancelAt-th handler invocation,
+	// "in": inside that invocation after its work is done; "after": by another goroutine once that invocation has returned
+	CancelAt   int
+	CancelHow  string
 }
 
 func (c rtCase) String() string {
-	return fmt.Sprintf("%s/regions=%d/[%q,%q)/rpt=%d/conc=%d/fail@%d/split@%d/merge=%v", c.Backend, c.Regions, c.Start, c.End, c.RPT, c.Conc, c.FailAt, c.SplitAt, c.Merge)
+	return fmt.Sprintf("%s/regions=%d/[%q,%q)/rpt=%d/conc=%d/fail@%d/split@%d/merge=%v", c.Backend, c.Regions, c.Start, c.End, c.RPT, c.Conc, c.FailAt, c.SplitAt, c.Merge) + func() string {
+		if c.CancelAt > 0 {
+			return fmt.Sprintf("/cancel-%s@%d", c.CancelHow, c.CancelAt)
+		}
+		return ""
+	}()
 }
 
 var errHandler = errors.New("verif: handler failure")
@@ -86,12 +95,37 @@ func runRangeTask(r *vrep.Report, u *uni.Universe, c *uni.ClientStore, lay *layo
 	var mu sync.Mutex
 	var got []kv.KeyRange
 	calls, failed, sumCompleted, sumFailed := 0, false, 0, 0
-	h := func(ctx context.Context, kr kv.KeyRange) (rangetask.TaskStat, error) {
+	ctx, cancel := context.WithCancel(bg)
+	defer cancel()
+	returned := make(chan struct{})
+	cancelDone := make(chan struct{})
+	if cs.CancelAt > 0 && cs.CancelHow == "after" {
+		go func() {
+			defer close(cancelDone)
+			select {
+			case <-returned:
+				cancel()
+			case <-ctx.Done():
+			}
+		}()
+	} else {
+		close(cancelDone)
+	}
+	cancelled := false
+	h := func(_ context.Context, kr kv.KeyRange) (st rangetask.TaskStat, err error) {
 		mu.Lock()
 		calls++
 		n := calls
 		got = append(got, kv.KeyRange{StartKey: append([]byte(nil), kr.StartKey...), EndKey: append([]byte(nil), kr.EndKey...)})
-		st := rangetask.TaskStat{CompletedRegions: 1 + n%3, FailedRegions: n % 2}
+		st = rangetask.TaskStat{CompletedRegions: 1 + n%3, FailedRegions: n % 2}
+		if cs.CancelAt != 0 && n == cs.CancelAt {
+			cancelled = true
+			if cs.CancelHow == "in" {
+				defer cancel() // the sub-range's work is done; the handler does not look at the context any more
+			} else {
+				defer close(returned)
+			}
+		}
 		fail := cs.FailAt != 0 && n == cs.FailAt
 		if fail {
 			failed = true
@@ -117,7 +151,7 @@ func runRangeTask(r *vrep.Report, u *uni.Universe, c *uni.ClientStore, lay *layo
 	runner := rangetask.NewRangeTaskRunner("verif-c14-rt", c.Store, cs.Conc, h)
 	runner.SetRegionsPerTask(cs.RPT)
 	done := make(chan error, 1)
-	go func() { done <- runner.RunOnRange(bg, []byte(cs.Start), []byte(cs.End)) }()
+	go func() { done <- runner.RunOnRange(ctx, []byte(cs.Start), []byte(cs.End)) }()
 	var err error
 	select {
 	case err = <-done:
@@ -125,6 +159,8 @@ func runRangeTask(r *vrep.Report, u *uni.Universe, c *uni.ClientStore, lay *layo
 		r.Inconc("%s: RunOnRange did not return (watchdog)", cs)
 		return
 	}
+	cancel()
+	<-cancelDone
 	mu.Lock()
 	defer mu.Unlock()
 	detail := map[string]any{"case": cs.String(), "borders": lay.sorted(), "error": es(err)}
@@ -141,10 +177,17 @@ func runRangeTask(r *vrep.Report, u *uni.Universe, c *uni.ClientStore, lay *layo
 		if err == nil {
 			viol(r, cs.Backend, "rangetask:failure-not-reported", fmt.Sprintf("%s: the handler failed on a sub-range but RunOnRange returned nil", cs), detail)
 		}
+	} else if cancelled && err != nil {
+		// the caller gave up: an error is a truthful answer, nothing is demanded about the coverage
+		r.Count("cancelled_runs_returning_error", 1)
 	} else {
 		if err != nil {
 			r.Inconc("%s: RunOnRange failed although no handler failed: %s", cs, es(err))
 			return
+		}
+		if cancelled {
+			// nil after the caller's cancellation is only truthful if every sub-range was handed out all the same
+			r.Count("cancelled_runs_returning_nil", 1)
 		}
 		if sig, msg := checkCover(got, cs.Start, cs.End); sig != "" {
 			viol(r, cs.Backend, "rangetask:cover:"+sig, fmt.Sprintf("%s: %s", cs, msg), detail)
@@ -237,6 +280,11 @@ func TestVerifC14RangeTask(t *testing.T) {
 					cs.SplitKey = rk(rng)
 					cs.Merge = be == uni.Mock && rng.Intn(3) == 0
 				}
+				if cs.FailAt == 0 && rng.Intn(4) == 0 {
+					cs.CancelAt = 1 + rng.Intn(4)
+					cs.CancelHow = []string{"in", "after"}[rng.Intn(2)]
+					cs.RPT = 1 + rng.Intn(2) // several sub-ranges still pending
+				}
 				runRangeTask(r, u, c, lay, cs)
 			}
 		}
@@ -249,4 +297,5 @@ func TestVerifC14RangeTask(t *testing.T) {
 	r.Floor("runs_unbounded_end", 10)
 	r.Floor("runs_with_several_sub_ranges", 30)
 	r.Floor("runs_with_failing_handler", 5)
+	r.Floor("cancelled_runs_returning_error", 10)
 }
